@@ -76,6 +76,21 @@ impl Stream for EnvStream {
     }
 }
 
+/// the transport as the parsers see it: the scripted environment directly, or behind the body
+/// wrapper every real request body goes through
+struct Src(Pin<Box<dyn Stream<Item = Result<Bytes, BoxError>> + Send>>);
+impl Src {
+    fn new(env: EnvStream, via_body: bool) -> Self {
+        if via_body { Src(Box::pin(crate::helpers::BodyStream::from_bytes_stream(env))) } else { Src(Box::pin(env)) }
+    }
+}
+impl Stream for Src {
+    type Item = Result<Bytes, BoxError>;
+    fn poll_next(mut self: Pin<&mut Self>, task: &mut Context<'_>) -> Poll<Option<Self::Item>> {
+        self.0.as_mut().poll_next(task)
+    }
+}
+
 /// Polls a stream to its end or to its first error item (consumers stop there; the parsers keep
 /// repeating a trailing-data error when polled again, which the `Stream` contract allows); a
 /// `Pending` is answered by polling again.
@@ -212,8 +227,8 @@ impl TryFrom<Bytes> for Raw {
     }
 }
 
-fn run_fixed<T: Serializable>(parser: Parser, buf: &[u8], cx: &mut Choices, max_chunk: usize) -> Result<(), String> {
-    let env = EnvStream { bytes: buf.to_vec(), pos: 0, cx: cx as *mut Choices, log: Vec::new(), errored: false, max_chunk };
+fn run_fixed<T: Serializable>(parser: Parser, buf: &[u8], cx: &mut Choices, max_chunk: usize, via_body: bool) -> Result<(), String> {
+    let env = Src::new(EnvStream { bytes: buf.to_vec(), pos: 0, cx: cx as *mut Choices, log: Vec::new(), errored: false, max_chunk }, via_body);
     let reference = reference_fixed::<T>(buf);
     let (got, terr, log) = match parser {
         Parser::Batch => {
@@ -255,8 +270,8 @@ fn cx_injected_error(_cx: &Choices) -> bool {
     INJECTED.with(std::cell::Cell::get)
 }
 
-fn run_ld(buf: &[u8], cx: &mut Choices, max_chunk: usize) -> Result<(), String> {
-    let env = EnvStream { bytes: buf.to_vec(), pos: 0, cx: cx as *mut Choices, log: Vec::new(), errored: false, max_chunk };
+fn run_ld(buf: &[u8], cx: &mut Choices, max_chunk: usize, via_body: bool) -> Result<(), String> {
+    let env = Src::new(EnvStream { bytes: buf.to_vec(), pos: 0, cx: cx as *mut Choices, log: Vec::new(), errored: false, max_chunk }, via_body);
     let mut s = LengthDelimitedStream::<Raw, _>::new(env);
     let items = drain(&mut s)?;
     let mut got = Vec::new();
@@ -274,8 +289,8 @@ fn run_ld(buf: &[u8], cx: &mut Choices, max_chunk: usize) -> Result<(), String> 
     judge(&got, &reference_ld(buf), cx_injected_error(cx), false)
 }
 
-fn run_buffered(sz: usize, buf: &[u8], cx: &mut Choices, max_chunk: usize) -> Result<(), String> {
-    let env = EnvStream { bytes: buf.to_vec(), pos: 0, cx: cx as *mut Choices, log: Vec::new(), errored: false, max_chunk };
+fn run_buffered(sz: usize, buf: &[u8], cx: &mut Choices, max_chunk: usize, via_body: bool) -> Result<(), String> {
+    let env = Src::new(EnvStream { bytes: buf.to_vec(), pos: 0, cx: cx as *mut Choices, log: Vec::new(), errored: false, max_chunk }, via_body);
     let mut s = BufferedBytesStream::new(env, NonZeroUsize::new(sz).unwrap());
     let items = drain(&mut s)?;
     let mut flat = Vec::new();
@@ -319,19 +334,21 @@ pub struct Case {
     pub bytes: Vec<u8>,
     pub bound: u32,
     pub max_chunk: usize,
+    /// the environment sits behind `BodyStream` (as every real request body does)
+    pub via_body: bool,
 }
 
 pub fn run_case(c: &Case, cx: &mut Choices) -> Result<(), String> {
     INJECTED.with(|f| f.set(false));
     match (c.parser, c.ty) {
-        (Parser::LengthDelimited, _) => run_ld(&c.bytes, cx, c.max_chunk),
-        (Parser::Buffered(sz), _) => run_buffered(sz, &c.bytes, cx, c.max_chunk),
-        (p, "BA8") => run_fixed::<BA8>(p, &c.bytes, cx, c.max_chunk),
-        (p, "Fp31") => run_fixed::<Fp31>(p, &c.bytes, cx, c.max_chunk),
-        (p, "Gf9Bit") => run_fixed::<Gf9Bit>(p, &c.bytes, cx, c.max_chunk),
-        (p, "BA20") => run_fixed::<BA20>(p, &c.bytes, cx, c.max_chunk),
-        (p, "Fp32BitPrime") => run_fixed::<Fp32BitPrime>(p, &c.bytes, cx, c.max_chunk),
-        (p, _) => run_fixed::<BA64>(p, &c.bytes, cx, c.max_chunk),
+        (Parser::LengthDelimited, _) => run_ld(&c.bytes, cx, c.max_chunk, c.via_body),
+        (Parser::Buffered(sz), _) => run_buffered(sz, &c.bytes, cx, c.max_chunk, c.via_body),
+        (p, "BA8") => run_fixed::<BA8>(p, &c.bytes, cx, c.max_chunk, c.via_body),
+        (p, "Fp31") => run_fixed::<Fp31>(p, &c.bytes, cx, c.max_chunk, c.via_body),
+        (p, "Gf9Bit") => run_fixed::<Gf9Bit>(p, &c.bytes, cx, c.max_chunk, c.via_body),
+        (p, "BA20") => run_fixed::<BA20>(p, &c.bytes, cx, c.max_chunk, c.via_body),
+        (p, "Fp32BitPrime") => run_fixed::<Fp32BitPrime>(p, &c.bytes, cx, c.max_chunk, c.via_body),
+        (p, _) => run_fixed::<BA64>(p, &c.bytes, cx, c.max_chunk, c.via_body),
     }
 }
 
@@ -417,7 +434,7 @@ fn run() {
         let ty: &'static str = match v["ty"].as_str().unwrap() {
             "BA8" => "BA8", "Fp31" => "Fp31", "Gf9Bit" => "Gf9Bit", "BA20" => "BA20", "Fp32BitPrime" => "Fp32BitPrime", _ => "BA64",
         };
-        let c = Case { parser, ty, bytes: v["bytes"].as_array().unwrap().iter().map(|b| b.as_u64().unwrap() as u8).collect(), bound: 9, max_chunk: v["max_chunk"].as_u64().unwrap_or(64) as usize };
+        let c = Case { parser, ty, bytes: v["bytes"].as_array().unwrap().iter().map(|b| b.as_u64().unwrap() as u8).collect(), bound: 9, max_chunk: v["max_chunk"].as_u64().unwrap_or(64) as usize, via_body: v["via_body"].as_bool().unwrap_or(false) };
         let trace: Vec<u32> = rep["choices"].as_array().unwrap().iter().map(|x| x.as_u64().unwrap() as u32).collect();
         r.add("states", 1);
         r.add("transitions", trace.len() as u64);
@@ -446,14 +463,14 @@ fn run() {
                 let bound = if thorough { bound + u32::from(n <= 10) } else { bound };
                 // long buffers: restrict chunk length so that the tree stays tractable
                 let max_chunk = if n > 14 { 9 } else { 64 };
-                cases.push(Case { parser, ty, bytes: bytes.clone(), bound, max_chunk });
+                cases.push(Case { parser, ty, bytes: bytes.clone(), bound, max_chunk, via_body: false });
             }
         }
     }
     for bytes in ld_streams(max_bytes) {
         let n = bytes.len();
         let bound = if n <= 6 { 2 } else if n <= 10 { 1 } else { 0 };
-        cases.push(Case { parser: Parser::LengthDelimited, ty: "raw", bytes, bound, max_chunk: 64 });
+        cases.push(Case { parser: Parser::LengthDelimited, ty: "raw", bytes, bound, max_chunk: 64, via_body: false });
     }
     // a 300-byte record between two small ones: cuts restricted to <= 9 bytes would never skip the
     // big record, so use chunk lengths up to 310 but bound 0 and only cuts near the boundaries
@@ -461,9 +478,12 @@ fn run() {
         for sz in [1usize, 2, 3, 5, 8] {
             let bytes: Vec<u8> = (0..n).map(|i| i as u8 + 1).collect();
             let bound = if n <= 8 { 1 } else { 0 };
-            cases.push(Case { parser: Parser::Buffered(sz), ty: "bytes", bytes, bound, max_chunk: 64 });
+            cases.push(Case { parser: Parser::Buffered(sz), ty: "bytes", bytes, bound, max_chunk: 64, via_body: false });
         }
     }
+    // the same, behind the body wrapper every real request body goes through (short buffers)
+    let behind_body: Vec<Case> = cases.iter().filter(|c| c.bytes.len() <= if thorough { 10 } else { 8 }).map(|c| Case { via_body: true, bound: c.bound.min(1), ..c.clone() }).collect();
+    cases.extend(behind_body);
     r.flag("exhaustive", true);
     let cap = 20_000_000;
     let results = common::par_map(cases.len(), common::ncpu(), |i| explore::explore(cases[i].bound, cap, |cx| run_case(&cases[i], cx)));
@@ -474,6 +494,9 @@ fn run() {
         r.add("evaluations", st.executions);
         r.add("transitions", st.choice_points);
         r.inc("streams");
+        if c.via_body {
+            r.inc("streams_behind_body_wrapper");
+        }
         r.set("parsers", format!("{:?}:{}", c.parser, c.ty).replace(|ch: char| ch.is_ascii_digit() && matches!(c.parser, Parser::Buffered(_)), "N"));
         if c.bytes.len() == 6 && c.ty == "Gf9Bit" && shown < 2 {
             shown += 1;
@@ -485,7 +508,7 @@ fn run() {
         if let Some((trace, e)) = st.failure {
             let kind = if e.contains("panic") { "panic" } else if e.contains("lost") || e.contains("prefix") { "records" } else { "error-reporting" };
             let p = match c.parser { Parser::Buffered(n) => format!("Buffered{n}"), p => format!("{p:?}") };
-            r.violation(&format!("parser:{kind}:{p}:{}", c.ty), &e, json!({"part":"parsers","case":{"parser":p,"ty":c.ty,"bytes":c.bytes,"max_chunk":c.max_chunk},"choices":trace}));
+            r.violation(&format!("parser:{kind}:{p}:{}", c.ty), &e, json!({"part":"parsers","case":{"parser":p,"ty":c.ty,"bytes":c.bytes,"max_chunk":c.max_chunk,"via_body":c.via_body},"choices":trace}));
         } else if !st.complete {
             r.flag("exhaustive", false);
             r.note(format!("{:?}/{} {} bytes: cap hit", c.parser, c.ty, c.bytes.len()));
